@@ -14,6 +14,8 @@ THEOREMS = [
     (M, "C11.sub_none_iff", "a.sub(b, path) is None exactly when a.match(path) is None: a file is mapped iff its own pattern covers it (all patterns, environments, paths)"),
     (M, "C11.sub_of_match", "a.sub(b, path) = expansion of b's pattern in the environment 'groups captured by a, then b's own environment on top'"),
     (M, "C11.match_sound_partial", "mapping back returns the original path, for sub onto the same matcher: m.sub(m, path) = path, the reported groups re-assemble exactly the matched path; all paths, simple patterns (literals, *, **, first-occurrence variables, any root) with a plain-text environment"),
+    (M, "C11.sub_roundtrip_star_partial", "the round trip between TWO matchers: a, b with the same wildcards whose top-level nodes are literals, `*`, `**/` (or a final `**`) and first occurrences of fully bound variables whose values may use further variables ({l} = '{l10n_base}/{locale}/'; any roots, literals and variables may differ); for the path pa = a filled with well separated wildcard values and pb = b filled with the same values: a.sub(b, pa) = pb, b.sub(a, pb) = pa, and both are matched"),
+    (M, "C11.roundtrip_separator_witness", "separation is forced on BOTH sides: '*/*' -> '*.*' maps 'a/b.c' to 'a.b.c', the way back gives 'a.b/c'"),
     (M, "C11.env_consistent", "in that environment the other matcher's bindings win over captured text of the same name; all other captured groups pass through unchanged"),
     (M, "C11.sub_rejects_trailing_newline", "a path with a trailing newline is not mapped (sub returns None), the same path without it is"),
     (M, "C11.same_wildcards_witness", "SameWildcards is forced: a wildcard only the other pattern has makes sub raise KeyError"),
@@ -21,21 +23,23 @@ THEOREMS = [
     ("CLModel.Props.C12", "C12.match_returns_bound_values", "after a successful match, a bound top-level variable's entry is the expansion of its value (used for 'substituted consistently')"),
 ]
 PARTIAL = [
-    "sub_roundtrip between TWO matchers (a.sub(b, .) then b.sub(a, .) is the identity on paths a matches, under SameWildcards/WellSeparated/"
-    "FirstNodeOK/DistinctGroupNames) is NOT proved in Lean: it needs completeness of the backtracking matcher for star patterns "
-    "and uniqueness of the wildcard decomposition; it is checked by the construction-based oracle on every generated pair (expected paths "
-    "and groups are known by construction).  Proved: the one-matcher round trip (match_sound_partial), what sub is (sub_none_iff, "
-    "sub_of_match, env_consistent), the C12 shape theorems, and a negation witness for each hypothesis",
+    "sub_roundtrip_star_partial (a.sub(b, .) then b.sub(a, .) is the identity, both sides matched with the filled values) is proved for the restricted "
+    "class only: top-level literals, `*`, one `**/` (anything double-star-free after it) or a final `**`, first occurrences of fully bound variables (nested "
+    "values allowed), well separated fillings on both sides (forced: roundtrip_separator_witness, same_wildcards_witness, two_starstar_witness), regex "
+    "compiles (F12), root decision succeeds (F11), env keys distinct and not named s<n>, no {android_locale}.  NOT proved: repeated variables "
+    "(back-references), {android_locale}, variables unbound on one side (captured from the path); there the construction-based oracle checks every generated pair (expected paths and "
+    "groups are known by construction)",
     "match_sound_partial is restricted (not forced) to environments of plain texts, first occurrences of variables, no {android_locale}",
 ]
 LEVEL_TEXT = ("Lean 4 theorems over an executable transliteration of paths/matcher.py: for ALL patterns, environments and paths, sub maps "
               "exactly the matched paths and is the expansion of the other pattern under 'captures, then the other environment' (other "
               "env wins, remaining groups unchanged), and for simple matchers the captured groups re-assemble exactly the matched path "
-              "(match_sound); the two-matcher round trip is established by differential + construction-based testing: "
+              "(match_sound); the two-matcher round trip is proved for the restricted class (literals, `*`, one `**/` or a final `**`, fully bound "
+              "variables incl. nested values; completeness + uniqueness of the backtracking matcher on well separated fillings) and beyond it established by differential + construction-based testing: "
               "bounded-exhaustive pattern pairs (8 segment forms, <= 2/3 segments, all small fills) and seeded random pairs of the "
               "configuration grammar, expected paths and groups known by construction; the model is tied to the Python by structural "
               "equality of the generated regex AST and by equal results on every case")
-LEVEL_NOTE = ("the round-trip theorem is not proved (see partial); trusted: Lean kernel, hand-written model validated by correspondence, "
+LEVEL_NOTE = ("the round-trip theorem is proved for a restricted class only (see partial); trusted: Lean kernel, hand-written model validated by correspondence, "
               "re.escape/re.compile identity checked structurally on every run; hypotheses with negation witnesses: "
               "SameWildcards, WellSeparated, FirstNodeOK (F11), DistinctGroupNames (F12)")
 TECHNIQUE = "Lean 4 proof over an executable model of paths/matcher.py + differential correspondence (incl. structural equality of the generated regex) + construction-based oracle"
@@ -457,6 +461,33 @@ def run_foreign(ctx, out, triples):
         out.count("foreign.cases")
 
 
+SEPARATOR_PAIRS = [
+    # (a, b, paths): excluded points of C11.sub_roundtrip_star_partial (separation on b's side); two stars in one
+    # segment are outside the grammar of the property, so only model == implementation is demanded here
+    ("*/*", "*.*", ["a/b.c", "a/b", "a.b/c"]),
+    ("*.*", "*/*", ["a.b.c", "a.b"]),
+    ("*-*.ftl", "*/*.ftl", ["a-b-c.ftl", "a-b.ftl"]),
+    ("ref/en-US/**/*.ftl", "l/**/*.ftl", ["ref/en-US/a/b/c.d.ftl", "ref/en-US/c.ftl"]),
+]
+
+
+def run_separator_probe(ctx, out):
+    mk = lambda pat: {"pat": pat, "env": [], "root": None, "with": None, "paths": []}
+    jobs = [(mk(a), mk(b), ps) for a, b, ps in SEPARATOR_PAIRS]
+    res = pool.pmap("impl.matcher", "impl_sub", [[{"a": a, "b": b, "paths": ps}] for a, b, ps in jobs], timeout=5.0)
+    model = C.run_driver_parallel(["pm.sub " + G.margs(a) + " " + G.margs(b) + G.paths_arg(ps) for a, b, ps in jobs]) \
+        if ctx.model_ok else [None] * len(jobs)
+    for (a, b, ps), r, mo in zip(jobs, res, model):
+        out.evaluations += 1
+        inp = {"a": a, "b": b, "paths": ps, "class": "probe.separator"}
+        if "r" not in r:
+            out.violations.append({"what": "sub raised %s" % r.get("exc"), "input": inp, "op": "probe-sep", "finding": None})
+            continue
+        if mo is not None and mo != r["r"]["subs"]:
+            out.disagreements.append({"op": "pm.sub", "input": inp, "impl": r["r"]["subs"], "model": mo})
+        out.count("probe.separator.cases")
+
+
 def run(ctx):
     out = Outcome()
     out.rule = ("pairs (a, b) of patterns with the same wildcard sequence: bounded-exhaustive over 8 segment forms (literal, "
@@ -474,4 +505,5 @@ def run(ctx):
     pr = probe_cases(rng, ctx.n(400, 3000))
     for cls in sorted({p[0] for p in pr}):
         run_pairs(ctx, out, [p[1:] for p in pr if p[0] == cls], cls, want_sub=True, want_neg=False)
+    run_separator_probe(ctx, out)
     return out
